@@ -280,7 +280,7 @@ func Source(unsupportedJSFeatures compat.JSFeature) logger.Source {
 			if (kind && result) __defProp(target, key, result)
 			return result
 		}
-		export var __decorateParam = (index, decorator) => (target, key) => decorator(target, key, index)
+		export var __decorateParam = (index, decorator) => (target, key) => { decorator(target, key, index) }
 
 		// For JavaScript decorators
 		export var __decoratorStart = base => [, , , __create(base?.[__knownSymbol('metadata')] ?? null)]
